@@ -245,6 +245,91 @@ theorem progress {blob : Bytes} {ip0 : IdxPos} {fetch : Fetch} {rq : List Req} {
         rcases h.reqs r1 q1 _ hq1 hst1 with ⟨_, hne, _⟩ | ⟨p, _⟩ | ⟨p, _⟩ | ⟨p, _⟩ | ⟨_, hne, _⟩
         all_goals first | exact absurd hh hne | omega
 
+/-! ### every run is finite: a move advances one program by one operation -/
+
+def pcSum (l : List ReqSt) : Nat := (l.map (·.pc)).sum
+
+theorem pcSum_set : ∀ (l : List ReqSt) (r : Nat) (st st' : ReqSt), l[r]? = some st →
+    pcSum (l.set r st') + st.pc = pcSum l + st'.pc := by
+  intro l
+  induction l with
+  | nil => intro r st st' h; simp at h
+  | cons a l ih =>
+    intro r st st' h
+    cases r with
+    | zero =>
+      simp only [List.getElem?_cons_zero, Option.some.injEq] at h
+      subst h
+      simp only [pcSum, List.set_cons_zero, List.map_cons, List.sum_cons]; omega
+    | succ r =>
+      simp only [List.getElem?_cons_succ] at h
+      have := ih r st st' h
+      simp only [pcSum, List.set_cons_succ, List.map_cons, List.sum_cons] at this ⊢; omega
+
+/-- whatever the shape: a move of a request advances its program counter by one and leaves the others -/
+theorem step_pcSum {shape : Shape} {fetch : Fetch} {rq : List Req} {s s' : St} {r : Nat}
+    (h : step shape fetch rq s r = some s') : pcSum s'.reqs = pcSum s.reqs + 1 := by
+  unfold step at h
+  split at h
+  next st q hst _ =>
+    have key : ∀ st1 : ReqSt, st1.pc = st.pc → pcSum (s.reqs.set r { st1 with pc := st1.pc + 1 }) = pcSum s.reqs + 1 := by
+      intro st1 h1
+      have := pcSum_set s.reqs r st { st1 with pc := st1.pc + 1 } hst
+      simp only [h1] at this ⊢; omega
+    unfold stepReq at h
+    split at h
+    · cases h
+    · split at h
+      · split at h
+        · split at h <;> cases h <;> exact key st rfl
+        · cases h; exact key st rfl
+      · split at h
+        · split at h
+          · cases h; exact key st rfl
+          · cases h
+        · split at h
+          · cases h; exact key st rfl
+          · cases h
+        · split at h
+          · cases h; exact key st rfl
+          · cases h; exact key { st with failed := true, res := some none } rfl
+        · cases h; exact key { st with res := _ } rfl
+  next => cases h
+
+theorem sinv_pcSum_le {blob : Bytes} {ip0 : IdxPos} {fetch : Fetch} {rq : List Req} {s : St}
+    (h : SInv blob ip0 fetch rq s) : pcSum s.reqs ≤ 4 * rq.length := by
+  have hb : ∀ st ∈ s.reqs, st.pc ≤ 4 := by
+    intro st hm
+    obtain ⟨r, hlt, hr⟩ := List.getElem_of_mem hm
+    have hst : s.reqs[r]? = some st := by rw [List.getElem?_eq_getElem hlt, hr]
+    have hlt' : r < rq.length := by rw [← h.len]; exact hlt
+    have hq : rq[r]? = some (rq[r]'hlt') := List.getElem?_eq_getElem hlt'
+    rcases h.reqs r _ st hq hst with ⟨p, _⟩ | ⟨p, _⟩ | ⟨p, _⟩ | ⟨p, _⟩ | ⟨p, _⟩ <;> omega
+  rw [← h.len]
+  generalize s.reqs = l at hb
+  induction l with
+  | nil => simp [pcSum]
+  | cons a l ih =>
+    have h1 := hb a (by simp)
+    have h2 := ih (fun st hm => hb st (by simp [hm]))
+    simp only [pcSum, List.map_cons, List.sum_cons, List.length_cons] at h2 ⊢; omega
+
+theorem moves_bounded {blob : Bytes} {ip0 : IdxPos} {fetch : Fetch} {rq : List Req}
+    (hs : Setup blob ip0 fetch) (sched : List Nat) :
+    ∀ s, SInv blob ip0 fetch rq s →
+      countMoves lockedShape fetch rq sched s + pcSum s.reqs ≤ 4 * rq.length := by
+  induction sched with
+  | nil => intro s h; simpa [countMoves] using sinv_pcSum_le h
+  | cons r rs ih =>
+    intro s h
+    simp only [countMoves]
+    cases hstep : step lockedShape fetch rq s r with
+    | none => exact ih s h
+    | some s' =>
+      have := ih s' (step_sinv hs h r hstep)
+      have := step_pcSum hstep
+      simp only; omega
+
 /-! ### the shapes that do NOT keep Seek and Read in one critical section -/
 
 /-- the two-chunk blob of `setup_example` -/
